@@ -29,6 +29,8 @@ DECIDED_R6 = ('Round 6: exactly 1xx/204/304 lose their body by status; emit iter
 DECIDED = DECIDED + ' ' + DECIDED_R6
 DECIDED_R7 = ('Round 7: _cast announces no length but len() of the bytes it returns; a status line is not compared with numbers; hooks remembered by emit are dropped by every method that edits the hook lists.')
 DECIDED = DECIDED + ' ' + DECIDED_R7
+DECIDED_R8 = ("Round 8: hooks are registered through add_hook only; the except-Exception handler of _cast's iterator peek never re-raises.")
+DECIDED = DECIDED + ' ' + DECIDED_R8
 NOT_DECIDED = ('header-list well-formedness beyond C14; close-exactly-once at run time for arbitrary servers; custom error '
                'handlers; behaviour after the first body chunk; the open set of handler programs.')
 ASSUMPTIONS = ['the server calls close() on the returned iterable once (PEP 3333)', 'start_response itself may raise: then the handler\'s call carries exc_info']
@@ -56,6 +58,9 @@ def check(P, R):
     # the header list handed to start_response is well-formed: every value a Latin-1 native string (premise shared with C14.d)
     from . import c14
     c14.check_emission(P, Sub(R, default='C03.a', why='start_response is called with a well-formed header list'))
+    # ... and no stored value carries CR / LF / NUL: the setter and guard clauses of C14 are premises of "well-formed"
+    from ..report import run_premise
+    run_premise(R, c14, P, {'C14.b', 'C14.c'}, 'C03.a', 'start_response is called with a well-formed header list: no value contains a line break')
     # the Content-Length that _cast adds is written into the live response's own header dictionary: applying a returned / raised response
     # must copy its headers, not hand its dictionary over (a shared error object would keep the length of an earlier page)
     from . import c09
@@ -669,6 +674,26 @@ def check_emit_snapshot(P, R, rid, why):
                     more.append((n_, v_))
     its = [(n_, it_) for (n_, it_) in its + more if '_hooks' in src(it_)]
     R.require(its, 'Ombott.emit: iteration over the hook list not found')
+    # every hook of the snapshot is called: the iteration is exhausted whatever the hooks return (a generator fed to any() / all() / next() / `in` stops early)
+    for (n_, it_) in its:
+        stop = None
+        if isinstance(n_, ast.GeneratorExp):
+            par_ = getattr(n_, '_p', None)
+            if isinstance(par_, ast.Call) and (dotted(par_.func) or '') in ('any', 'all', 'next', 'min', 'max') and dotted(par_.func) in ('any', 'all', 'next'):
+                stop = f'{dotted(par_.func)}() stops at the first hook whose result decides it'
+            elif isinstance(par_, ast.Compare):
+                stop = 'a membership test stops at the first match'
+            elif not (isinstance(par_, ast.Call) and (dotted(par_.func) or '') in ('list', 'tuple', 'sum', 'len', 'set', 'sorted', 'collections.deque', 'deque')):
+                stop = 'a generator expression runs only as far as its consumer pulls it'
+        elif isinstance(n_, ast.For):
+            leaves = [x for b_ in n_.body for x in ast.walk(b_) if isinstance(x, (ast.Break, ast.Return)) and not any(
+                isinstance(l_, (ast.For, ast.While)) and l_ is not n_ and any(x is y for y in ast.walk(l_)) for b2 in n_.body for l_ in ast.walk(b2))]
+            if leaves:
+                stop = f'`{short(leaves[0])}` leaves the loop'
+        if stop is not None or isinstance(n_, ast.GeneratorExp):
+            R.ob(rid, em, n_, stop is None, text=f'emit calls every hook of the snapshot (`{short(n_, 50)}`)', detail='' if stop is None else
+                 f'{stop}: the hooks behind it are not called for this request - a hook that returns something truthy (or falsy) silences the ones registered after it',
+                 why=why, key_extra='emit-exhaustive')
     for (n_, it_) in its:
         snap = (isinstance(it_, ast.Subscript) and isinstance(it_.slice, ast.Slice) and it_.slice.lower is None and it_.slice.upper is None and it_.slice.step is None) or \
             (isinstance(it_, ast.Call) and (dotted(it_.func) in ('list', 'tuple') or call_attr(it_) == 'copy'))
